@@ -76,9 +76,6 @@ func (e *Engine) pkgByPath(path string) *types.Package {
 // findPackage resolves a package name used in a contract (from the viewpoint of package `from`).
 func (e *Engine) findPackage(from *types.Package, name string) *types.Package {
 	if from != nil {
-		if from.Name() == name {
-			return from
-		}
 		// import aliases used in the package's own files (e.g. aliyunClient "…/pkg/aliyun/client")
 		if pk, ok := e.prog.All[from.Path()]; ok {
 			for _, f := range pk.Syntax {
@@ -105,6 +102,10 @@ func (e *Engine) findPackage(from *types.Package, name string) *types.Package {
 		}
 		if len(cands) > 0 {
 			return cands[0]
+		}
+		// the package itself (Go code never qualifies its own names, so an import of that name wins above)
+		if from.Name() == name {
+			return from
 		}
 	}
 	// fall back: unique package of that name in the program, preferring repo packages
